@@ -83,6 +83,12 @@ func (s *life) Build(w *World) {
 	t := w.Tape
 	drawProfile(w)
 	NewFabric(w)
+	// buggify: a random subset of the internal yield sites of the task workers is active
+	for _, site := range []string{"taskqueue.afterPop", "queryexecutor.beforeFinishTask"} {
+		if t.Chance(300) {
+			w.Yields[site] = true
+		}
+	}
 	if s.faults {
 		w.Net.SendFaults = []string{"fail", "acklost"}
 		w.Net.ConnectFaults = []string{"fail"}
